@@ -12,6 +12,8 @@ HeaderBytes(H, declared) ==
     [] H.name = "mb"    -> <<214, 80, 82, 232>> \o <<0, 0, 0, 0>> \o U32Bytes(declared) \o <<0, 0, 0, 0>>
     [] H.name = "htag"  -> <<1, 0, 0, 0>> \o U32Bytes(declared)
     [] H.name = "dummy" -> <<255, 255, 255, 255>> \o U32Bytes(declared)
+    [] H.name = "h12"   -> <<1, 0, 0, 0>> \o U32Bytes(declared) \o <<187, 204, 221, 238>>
+    [] H.name = "h4"    -> U32Bytes(declared)
 
 Image(H, len, declared) ==
   LET hb == HeaderBytes(H, declared) IN
@@ -21,7 +23,7 @@ RSParams == { [h |-> H.name, len |-> len, al |-> a, declared |-> d]
               : H \in {x \in Headers : x.name \in HeaderNames}, len \in 0..MaxLen, a \in 0..7, d \in 0..MaxDecl }
 RSCase(p) ==
   [mem |-> Image(HeaderByName(p.h), p.len, p.declared), al |-> p.al,
-   calls |-> <<[op |-> "bytes_ref", h |-> p.h], [op |-> "ref_from_slice", h |-> p.h]>>
+   calls |-> <<[op |-> "bytes_ref", h |-> p.h], [op |-> "ref_from_slice", h |-> p.h], [op |-> "ref_from_bytes", h |-> p.h]>>
              \o (IF p.h # "mb" /\ p.al = 0 /\ p.len % 8 = 0 THEN <<[op |-> "clone_ref", h |-> p.h]>> ELSE <<>>),
    desc |-> [area |-> "refslice"] @@ p]
 =============================================================================
